@@ -179,8 +179,27 @@ func CountDistinct(reference graph.Criteria) *cypherModel.FunctionInvocation {
 	}
 }
 
+// groupLooserOperands wraps operands whose top-level operator binds looser than the operator joining them so that
+// the emitted text keeps the grouping of the model: a bare OR or XOR under AND, or a bare OR under XOR, would
+// otherwise be regrouped by operator precedence when the text is parsed.
+func groupLooserOperands(operands []cypherModel.Expression, wrapExclusiveDisjunction bool) []cypherModel.Expression {
+	for idx, operand := range operands {
+		switch operand.(type) {
+		case *cypherModel.Disjunction:
+			operands[idx] = &cypherModel.Parenthetical{Expression: operand}
+
+		case *cypherModel.ExclusiveDisjunction:
+			if wrapExclusiveDisjunction {
+				operands[idx] = &cypherModel.Parenthetical{Expression: operand}
+			}
+		}
+	}
+
+	return operands
+}
+
 func And(criteria ...graph.Criteria) *cypherModel.Conjunction {
-	return cypherModel.NewConjunction(convertCriteria[cypherModel.Expression](criteria...)...)
+	return cypherModel.NewConjunction(groupLooserOperands(convertCriteria[cypherModel.Expression](criteria...), true)...)
 }
 
 func Or(criteria ...graph.Criteria) *cypherModel.Parenthetical {
@@ -190,7 +209,7 @@ func Or(criteria ...graph.Criteria) *cypherModel.Parenthetical {
 }
 
 func Xor(criteria ...graph.Criteria) *cypherModel.ExclusiveDisjunction {
-	return cypherModel.NewExclusiveDisjunction(convertCriteria[cypherModel.Expression](criteria...)...)
+	return cypherModel.NewExclusiveDisjunction(groupLooserOperands(convertCriteria[cypherModel.Expression](criteria...), false)...)
 }
 
 func Parameter(value any) *cypherModel.Parameter {
